@@ -1,4 +1,9 @@
 """Claimed checks beyond C01 and the properties still under construction."""
-CLAIMED = {}
+CLAIMED = {
+ 'C06': dict(engine='session_atoms', ref='4.5',
+   text='Seeded search over edit histories on a pool of live Atoms/System objects (every operation of the quantifier, refused operations, caller scribbles, writes through possibly-aliased children, box changes under relatives) with every pooled object compared cell by cell against a record-per-atom model after every step. Exploration: the property quantifies over histories, which can only be sampled.',
+   note='Single caller (atomman has no threads). Undocumented sharing between a slice child and its parent is treated as may-alias (old-or-new accepted for cells written through the other side). Writes to existing properties are generated representable in the stored dtype.',
+   technique='deterministic simulation: seeded operation-and-fault histories vs record-per-atom reference model, ddmin replay'),
+}
 BUILDING = {p: 'claimed in DESIGN.md; check under construction in this session, not yet registered' for p in
-            ['C06', 'C08', 'C09', 'C10', 'C15', 'C19']}
+            ['C08', 'C09', 'C10', 'C15', 'C19']}
